@@ -33,6 +33,7 @@ WARN_OK = {"PackNotReferenced", "HotDataPack", "HotPackNotReferenced"}
 
 def run(ctx, rep):
     prog = ctx.prog
+    wiring_rule(ctx, rep, "C05")
     for r, tx in (("C05.a", "severity table of CheckError constructions"), ("C05.b", "check_pack verifies every layer"),
                   ("C05.c", "read-data covers the packs the tree walk uses"), ("C05.d", "index vs listing comparison has error arms"),
                   ("C05.e", "check's lookup index is fed like restore's (unmarked packs only)"), ("C05.f", "unreadable repository files are not skipped")):
